@@ -97,6 +97,9 @@ pub fn global_decl(g: &Global, sh: &Shader) -> String {
                 Space::Push => "<push_constant>",
             };
             let _ = structs;
+            if let (Some((_, ov)), Ty::A(e, _)) = (sh.ov_sized.iter().find(|(v, _)| v == &g.name), ty) {
+                return format!("{attr}var{sp} {}: array<{}, {}>;", g.name, tyw(e, sh), ov);
+            }
             format!("{attr}var{sp} {}: {};", g.name, tyw(ty, sh))
         }
         GKind::Tex(t) => format!("{attr}var {}: {};", g.name, tex_type(t)),
@@ -237,11 +240,23 @@ fn render_stmts(sh: &Shader, stmts: &[Stmt], ind: usize, ctx: &mut Ctx, out: &mu
             Stmt::Switch { cases, default } => {
                 writeln!(out, "{pad}switch (i32(acc)) {{").unwrap();
                 for (i, c) in cases.iter().enumerate() {
-                    writeln!(out, "{pad}    case {}: {{", i + 1).unwrap();
+                    // selector lists vary with the position: one selector, two, three (naga lowers a
+                    // clause with several selectors to fall-through cases)
+                    let sel = match i % 3 {
+                        0 => format!("{}", 10 * i + 1),
+                        1 => format!("{}, {}", 10 * i + 1, 10 * i + 2),
+                        _ => format!("{}, {}, {}", 10 * i + 1, 10 * i + 2, 10 * i + 3),
+                    };
+                    writeln!(out, "{pad}    case {sel}: {{").unwrap();
                     render_stmts(sh, c, ind + 2, ctx, out, in_value_fn);
                     writeln!(out, "{pad}    }}").unwrap();
                 }
-                writeln!(out, "{pad}    default: {{").unwrap();
+                // the default clause shares its body with a selector when the number of cases is odd
+                if cases.len() % 2 == 1 {
+                    writeln!(out, "{pad}    case 1000, default: {{").unwrap();
+                } else {
+                    writeln!(out, "{pad}    default: {{").unwrap();
+                }
                 render_stmts(sh, default, ind + 2, ctx, out, in_value_fn);
                 writeln!(out, "{pad}    }}").unwrap();
                 writeln!(out, "{pad}}}").unwrap();
@@ -274,14 +289,24 @@ pub fn render(sh: &Shader) -> String {
     for sd in &sh.structs {
         item!(false, |out: &mut String| {
         writeln!(out, "struct {} {{", sd.name).unwrap();
-        for m in &sd.members {
-            writeln!(out, "    {}", member_decl(m, sh)).unwrap();
+        for (mi, m) in sd.members.iter().enumerate() {
+            let mut d = member_decl(m, sh);
+            // two outputs at one location = dual source blending: the second carries the attribute
+            if let Io::Loc { loc, .. } = &m.io {
+                if sd.members[..mi].iter().any(|x| matches!(&x.io, Io::Loc { loc: l2, .. } if l2 == loc)) {
+                    d = d.replacen(&format!("@location({loc}) "), &format!("@location({loc}) @second_blend_source "), 1);
+                }
+            }
+            writeln!(out, "    {d}").unwrap();
         }
         writeln!(out, "}}").unwrap();
         });
     }
     for a in &sh.aliases {
         item!(false, |out: &mut String| writeln!(out, "alias {} = {};", a.name, a.ty.wgsl(&sh.structs)).unwrap());
+    }
+    for r in &sh.raw_items {
+        item!(false, |out: &mut String| writeln!(out, "{r}").unwrap());
     }
     for c in &sh.consts {
         item!(false, |out: &mut String| writeln!(out, "const {}{};", c.name, c.decl).unwrap());
@@ -290,8 +315,8 @@ pub fn render(sh: &Shader) -> String {
         item!(false, |out: &mut String| {
         let id = o.id.map(|i| format!("@id({i}) ")).unwrap_or_default();
         match &o.init {
-            Some(init) => writeln!(out, "{id}override {}: {} = {};", o.name, o.ty.wgsl(), init).unwrap(),
-            None => writeln!(out, "{id}override {}: {};", o.name, o.ty.wgsl()).unwrap(),
+            Some(init) => writeln!(out, "{id}override {}: {} = {};", o.name, tyw(&Ty::S(o.ty), sh), init).unwrap(),
+            None => writeln!(out, "{id}override {}: {};", o.name, tyw(&Ty::S(o.ty), sh)).unwrap(),
         }
         });
     }
@@ -332,6 +357,7 @@ pub fn render(sh: &Shader) -> String {
                     .map(|d| match d {
                         WgDim::Lit(v) => v.to_string(),
                         WgDim::Const(n, _) => n.clone(),
+                        WgDim::Override(n) => n.clone(),
                     })
                     .collect();
                 format!("@compute @workgroup_size({})", dims.join(", "))
